@@ -288,7 +288,9 @@ def observation_tier(run, judge, rng, thorough, seed):
     grids = [numpy.linspace(0.05, 0.95, 10), numpy.linspace(0.12, 0.97, 30), numpy.linspace(0.02, 0.985, 60),
              numpy.array([0.1 + 0.85 * (k / 24) ** 2 for k in range(1, 25)]),
              # the whole open interval: very low pressures and the approach to saturation (beyond the default upper limit 0.99)
-             numpy.array([1e-4, 1e-3, 0.01, 0.05, 0.1, 0.3, 0.5, 0.7, 0.9, 0.97, 0.99, 0.995, 0.998, 0.999])]
+             numpy.array([1e-4, 1e-3, 0.01, 0.05, 0.1, 0.3, 0.5, 0.7, 0.9, 0.97, 0.99, 0.995, 0.998, 0.999]),
+             # finely spaced points: width increments of a few 1e-3 nm
+             numpy.linspace(0.10, 0.14, 25)]
 
     # ---- Kelvin radii
     for name, T, ad in sets:
@@ -330,7 +332,13 @@ def observation_tier(run, judge, rng, thorough, seed):
             for men in ("",) + tuple(MENISCI):
                 scen.append((name, T, ad, gi, tname, method, geom, branch, men))
     rng.shuffle(scen)
-    scen = scen[: len(scen) // 2] if thorough else scen[: len(scen) // 12]
+    scen = scen[: len(scen) // 2] if thorough else scen[: len(scen) // 14]
+    # always run, for every seed: the two special grids (whole interval; fine spacing) x every method / geometry x
+    # {zero, Harkins/Jura} thickness, with the smooth, plateau and one single-step shape each
+    always = {(sets[0][0], gi, tname, method, geom, "ads", "") for gi in (len(grids) - 2, len(grids) - 1)
+              for tname in ("zero thickness", "Harkins/Jura") for method, geom in CONFIGS}
+    scen = [x for x in scen if (x[0], x[3], x[4], x[5], x[6], x[7], x[8]) not in always]
+    scen += [(sets[0][0], sets[0][1], sets[0][2], gi, tname, method, geom, "ads", "") for (_, gi, tname, method, geom, _, _) in sorted(always)]
     n_not_judged = 0
     nscen = 0
     for name, T, ad, gi, tname, method, geom, branch, men in scen:
@@ -339,7 +347,8 @@ def observation_tier(run, judge, rng, thorough, seed):
         t = numpy.asarray(tfun(p), dtype=float)
         lnp = [math.log(x) for x in p]
         shapes = volume_shapes(p, rng)
-        shape = shapes[rng.randrange(len(shapes))] if not thorough else None
+        forced = (name, gi, tname, method, geom, branch, men) in always
+        shape = shapes[rng.randrange(len(shapes))] if not (thorough or forced) else None
         for sname, V, step in ([shape] if shape else shapes[:2] + [shapes[2 + rng.randrange(len(shapes) - 2)]]):
             zero = tname == "zero thickness"
             cfg = {"method": method, "pore_geometry": geom, "thickness": tname, "kelvin": "Kelvin", "meniscus": men or "default", "branch": branch,
